@@ -18,17 +18,20 @@ open GocoinV GocoinV.Target GocoinV.Retarget GocoinV.BlockCheck GocoinV.Gen.Cons
 
 /-- PreCheckBlock, decision logic stated outright: a header that passes (`err = ok`) is at least 80 bytes,
     has a non-zero version, a hash that meets the target in its own `bits`, a time not more than
-    `maxFutureBlockTime` (2 h) ahead of the clock, is not yet known, has a known parent, is not a fork deeper
-    than the unwind limit, carries exactly the `bits` that GetNextWorkRequired demands after its parent, has a
-    time strictly above the parent's median-time-past, and a (signed) version permitted at its height; and the
-    call reports neither `dos` nor `maybelater` and leaves height = parent height + 1 and that MTP in the block. -/
+    `maxFutureBlockTime` (2 h) ahead of the clock, has no `BlockIndex` entry under its own 8-byte key, has a parent
+    entry under the 8-byte key of its previous-block field WHOSE WHOLE HASH IS THAT FIELD (`i.parent = some
+    (i.parentHash, …)`: the header names a block that exists — the index key alone is attacker-chosen header data),
+    is not a fork deeper than the unwind limit, carries exactly the `bits` that GetNextWorkRequired demands after
+    that parent, has a time strictly above the parent's median-time-past, and a (signed) version permitted at its
+    height; and the call reports neither `dos` nor `maybelater` and leaves height = parent height + 1 and that MTP
+    in the block. -/
 theorem precheck_sound (p : Params) (c : Consensus) (i : PreIn) (o : PreOut)
     (h : preCheckBlock p c i = some o) (hok : o.err = .ok) :
     preMinRawLen ≤ i.rawLen ∧ signedVersion i.ver ≠ forbiddenVersion ∧
     checkProofOfWork i.hash i.bits = true ∧
     (i.time : Int) ≤ i.now + maxFutureBlockTime ∧
     i.known = none ∧
-    ∃ prev anc mtp, i.parent = some (prev :: anc) ∧
+    ∃ prev anc mtp, i.parent = some (i.parentHash, prev :: anc) ∧
       o.height = (prev.height + 1) % 2^32 ∧
       (i.parentIsLast = true ∨ (i.lastHeight : Int) - (o.height : Int) < (forkDepthLimit : Int)) ∧
       getNextWorkRequired p (prev :: anc) i.time = some i.bits ∧
@@ -44,13 +47,19 @@ theorem precheck_sound (p : Params) (c : Consensus) (i : PreIn) (o : PreOut)
   · simp at h; subst h; simp at hok
   split at h
   · simp at h; subst h; simp at hok
+  rename_i hlen hver hpow htime
   split at h
-  · simp at h; subst h; simp at hok
-  · simp at h; subst h; simp at hok
+  · split at h
+    · simp at h; subst h; simp at hok
+    split at h
+    · simp at h; subst h; simp at hok
+    · simp at h; subst h; simp at hok
+  rename_i hknown
   split at h
   · simp at h; subst h; simp at hok
   · simp at h
-  rename_i hlen hver hpow htime _ hknown _ prev anc hpar
+  rename_i prev anc hpar
+  have hpar' := Proofs.C05.parentOf_some i _ hpar
   simp only at h
   split at h
   · simp at h; subst h; simp at hok
@@ -69,7 +78,7 @@ theorem precheck_sound (p : Params) (c : Consensus) (i : PreIn) (o : PreOut)
   rename_i hold hverrej
   simp at h; subst h
   dsimp only
-  refine ⟨by omega, hver, by simpa using hpow, by omega, by assumption, prev, anc, mtp, hpar, rfl, ?_, ?_, hmtp, rfl, by omega, by simpa using hverrej, rfl, rfl⟩
+  refine ⟨by omega, hver, by simpa using hpow, by omega, hknown, prev, anc, mtp, hpar', rfl, ?_, ?_, hmtp, rfl, by omega, by simpa using hverrej, rfl, rfl⟩
   · cases hp : i.parentIsLast with
     | true => left; rfl
     | false => right; simp [hp] at hdeep; omega
@@ -79,9 +88,23 @@ theorem precheck_sound (p : Params) (c : Consensus) (i : PreIn) (o : PreOut)
 /-- non-vacuity of `precheck_sound`: a block on top of a one-block chain passes the model. -/
 example : ∃ o, preCheckBlock { maxPowBits := 0x207fffff, maxPowValue := setCompact 0x207fffff, testnet := false, testnet4 := false }
     { bip34Height := 1, bip65Height := 1, bip66Height := 1, enforceCSV := 0, enforceSegwit := 0, enforceTaproot := 0 }
-    { rawLen := 285, ver := 4, hash := 12345, bits := 0x207fffff, time := 1000, now := 5000, known := none,
-      parent := some [{ height := 0, ts := 900, bits := 0x207fffff }], parentIsLast := true, lastHeight := 0 } = some o ∧ o.err = .ok := by
+    { rawLen := 285, ver := 4, hash := 12345, parentHash := 2^64 * 77 + 5, bits := 0x207fffff, time := 1000, now := 5000, known := none,
+      parent := some (2^64 * 77 + 5, [{ height := 0, ts := 900, bits := 0x207fffff }]), parentIsLast := true, lastHeight := 0 } = some o ∧ o.err = .ok := by
   exact ⟨{ dos := false, maybelater := false, err := .ok, height := 1, mtp := 900 }, by decide, rfl⟩
+
+/-- **A previous-block field that shares only its 8-byte index key with a known block is an unknown parent.** The
+    same block as in the example above, with the previous-block field changed outside its first 8 bytes (same `bidx`,
+    so the `BlockIndex` look-up finds the same entry): refused with `bad-prevblk`, `maybelater` — what the code did
+    before fix 533896f3 was to accept it (`parentHashCompared` is regenerated from the source: with the comparison
+    removed this theorem and `precheck_sound` fail). -/
+theorem prefix_only_parent_refused :
+    bidx (2^64 * 78 + 5) = bidx (2^64 * 77 + 5) ∧
+    preCheckBlock { maxPowBits := 0x207fffff, maxPowValue := setCompact 0x207fffff, testnet := false, testnet4 := false }
+    { bip34Height := 1, bip65Height := 1, bip66Height := 1, enforceCSV := 0, enforceSegwit := 0, enforceTaproot := 0 }
+    { rawLen := 285, ver := 4, hash := 12345, parentHash := 2^64 * 78 + 5, bits := 0x207fffff, time := 1000, now := 5000, known := none,
+      parent := some (2^64 * 77 + 5, [{ height := 0, ts := 900, bits := 0x207fffff }]), parentIsLast := true, lastHeight := 0 }
+      = some { dos := false, maybelater := true, err := .noParent } := by
+  decide
 
 /-- PostCheckBlock, decision logic stated outright, for the way every caller that handles untrusted data enters
     it (`bl.Txs == nil`, block not marked trusted): a block that passes is at least 81 bytes, parsed, weighs at
@@ -156,6 +179,25 @@ theorem postcheck_sound (h : Bytes → Bytes) (c : Consensus) (i : PostIn) (f : 
                   · rw [← htxs]; exact hct
     · simp [hcb] at hr
 
+/-- non-vacuity of `postcheck_sound`, COMMITMENT branch: segwit active at height 1, a coinbase whose last output is
+    6a24aa21a9ed ‖ h(witness-root ‖ nonce) with a single 32-byte nonce (toy hash `take 32`: witness root of the
+    one-leaf tree = 32 zero bytes, so the commitment is 32 zero bytes), Merkle root = the coinbase txid: passes with
+    the flags P2SH|DERSIG|CLTV|WITNESS|NULLDUMMY; and the same block with one commitment byte changed is refused. -/
+example :
+    let cb : Tx := { ins := [{ null := true, seq := 0xffffffff, scriptLen := 3 }], in0Script := [0x51, 1, 2],
+                     outs := [[0x51], [0x6a, 0x24, 0xaa, 0x21, 0xa9, 0xed] ++ List.replicate 32 0], outValues := [5000000000, 0],
+                     segwit := some [[List.replicate 32 7]], txid := [9], wtxid := [8], lockTime := 0, noWitSize := 150, size := 190 }
+    let c : Consensus := { bip34Height := 1, bip65Height := 1, bip66Height := 1, enforceCSV := 0, enforceSegwit := 1, enforceTaproot := 0 }
+    let i : PostIn := { rawLen := 271, preParsed := false, buildOk := true, trusted := false, height := 1, mtp := 900, time := 1000,
+                        merkleRoot := [9], txs := [cb] }
+    postCheckBlock (fun x => x.take 32) c i = some (.ok, getBlockFlags c 1 1000) ∧
+    getBlockFlags c 1 1000 &&& VER_WITNESS ≠ 0 ∧
+    (findCommitment cb.outs.reverse).isSome = true ∧
+    postCheckBlock (fun x => x.take 32) c
+      { i with txs := [{ cb with outs := [[0x51], [0x6a, 0x24, 0xaa, 0x21, 0xa9, 0xed] ++ (1 :: List.replicate 31 0)] }] }
+      = some (.witnessMerkle, getBlockFlags c 1 1000) := by
+  decide +kernel
+
 /-- the weight limit applied by PostCheckBlock is the constant MAX_BLOCK_WEIGHT of lib/btc/const.go, which is
     4,000,000 (both regenerated from the source: an edit to either breaks this theorem). -/
 theorem weight_limit_is_max_block_weight : postMaxWeight = MAX_BLOCK_WEIGHT ∧ MAX_BLOCK_WEIGHT = 4000000 := by
@@ -171,6 +213,13 @@ theorem source_limits :
     witnessNonceStacks = 1 ∧ witnessNonceItems = 1 ∧ witnessCommitMinLen = 38 ∧
     witnessHeader = [0x6a, 0x24, 0xaa, 0x21, 0xa9, 0xed] ∧ LOCKTIME_THRESHOLD = 500000000 ∧
     minVersion_BIP34Height = 2 ∧ minVersion_BIP66Height = 3 ∧ minVersion_BIP65Height = 4 := by
+  decide
+
+/-- structural facts about the `BlockIndex` look-ups, re-read from the source on every run (gen_c05): the entry found
+    under the 8-byte key is compared with the WHOLE hash — of the block itself in PreCheckBlock's "already in" test,
+    of the header's previous-block field in PreCheckBlock and in AcceptHeader (fix 533896f3). -/
+theorem index_lookups_compare_whole_hash :
+    knownHashCompared = true ∧ parentHashCompared = true ∧ acceptHeaderParentHashCompared = true := by
   decide
 
 /-- the activation heights and pow limit installed by NewChainExt (regenerated from lib/chain/chain.go on every
@@ -233,6 +282,34 @@ theorem tx_rules_sound (txs : List Tx) (height time : Nat) (h : checkTransaction
       · simp at hct
       · rename_i hn; simpa using hn
   · simp at h1
+
+/-- non-vacuity of `tx_rules_sound`: a coinbase with a 3-byte script and a regular non-final-looking transaction
+    (lock time 100 < height 101) pass at height 101; at height 100 the second one is reported non-final. -/
+example :
+    let cb : Tx := { ins := [{ null := true, seq := 0xffffffff, scriptLen := 3 }], in0Script := [], outs := [[]], outValues := [5000000000],
+                     segwit := none, txid := [], wtxid := [], lockTime := 0, noWitSize := 100, size := 100 }
+    let t : Tx := { ins := [{ null := false, seq := 0, scriptLen := 0 }], in0Script := [], outs := [[]], outValues := [MAX_MONEY],
+                    segwit := none, txid := [], wtxid := [], lockTime := 100, noWitSize := 100, size := 100 }
+    checkTransactions [cb, t] 101 0 = [] ∧ checkTransactions [cb, t] 100 0 = [.nonFinal] ∧
+    checkTransactions [{ t with outValues := [MAX_MONEY, 1] }] 101 0 = [.totalTooLarge] := by
+  decide
+
+/-- `Tx.IsFinal` is the reference client's `IsFinalTx(tx, nBlockHeight, nBlockTime)` (tx_verify.cpp), written out:
+    lock time 0, or lock time below the height (when < 500,000,000) resp. below the time cut-off (otherwise), or every
+    input sequence equal to 0xffffffff. (The cut-off handed in by PostCheckBlock is the parent's median-time-past when
+    CSV is active, else the block time: `postcheck_sound`.) -/
+theorem isFinal_is_IsFinalTx (lockTime : Nat) (seqs : List Nat) (height time : Nat) :
+    isFinal lockTime seqs height time =
+      (decide (lockTime = 0) || decide (lockTime < (if lockTime < 500000000 then height else time)) ||
+       seqs.all (· = 0xffffffff)) := by
+  have hth : LOCKTIME_THRESHOLD = 500000000 := by decide
+  unfold isFinal
+  rw [hth]
+  by_cases h0 : lockTime = 0
+  · simp [h0]
+  · by_cases hlt : lockTime < 500000000
+    · by_cases hh : lockTime < height <;> simp [h0, hlt, hh]
+    · by_cases ht : lockTime < time <;> simp [h0, hlt, ht]
 
 /-- GetMedianTimePast is the median of the last ≤ 11 timestamps: the value returned occurs among them, at most
     ⌊n/2⌋ of them are strictly smaller and more than ⌊n/2⌋ of them are ≤ it (n = number collected). -/
@@ -415,6 +492,24 @@ theorem gnwr_off_retarget_mainnet (p : Params) (lst : Node) (m : Node) (anc : Li
   unfold getNextWorkRequired
   simp [hh, hnet]
 
+/-- non-vacuity of `gnwr_at_retarget` / `gnwr_off_retarget_mainnet`: a mainnet chain of 2016 nodes (heights 2015..0)
+    whose last block is 302400 s (T/4) after the first: the block after it must carry a quarter of the target; one
+    block earlier (height 2014 → next 2015, not a multiple of 2016) the parent's bits are demanded. -/
+example :
+    let p : Params := { maxPowBits := 0x1d00ffff, maxPowValue := MaxPOWValue, testnet := false, testnet4 := false }
+    let lst : Node := { height := 2015, ts := 1000302400, bits := 0x1d00ffff }
+    let n : Node := { height := 7, ts := 1000000000, bits := 0x1d00ffff }
+    getNextWorkRequired p (lst :: n :: List.replicate 2014 n) 1000303000 = some (retarget MaxPOWValue 0x1d00ffff 302400) ∧
+    retarget MaxPOWValue 0x1d00ffff 302400 = 0x1c3fffc0 ∧
+    getNextWorkRequired p ({ lst with height := 2014 } :: n :: List.replicate 2014 n) 1000303000 = some 0x1d00ffff := by
+  refine ⟨?_, by decide, ?_⟩
+  · exact gnwr_at_retarget _ _ _ _ _ { height := 7, ts := 1000000000, bits := 0x1d00ffff } (by decide)
+      (by
+        have e : targetInterval - 1 = 2013 + 1 + 1 := by decide
+        rw [e, List.getElem?_cons_succ, List.getElem?_cons_succ, List.getElem?_replicate]
+        simp) rfl
+  · exact gnwr_off_retarget_mainnet _ _ _ _ _ (by decide) rfl
+
 /-- The block weight computed by BuildTxListExt is BIP141's: 3 × (size without witness data) + (total size),
     where both sizes count the 80-byte header, the transaction count and every transaction. -/
 theorem weight_formula (txs : List Tx) :
@@ -458,7 +553,10 @@ theorem checkBlock_chain_unchanged {U : Type} (p : Params) (c : Consensus) (h : 
       · simp at hr
       · simp only [Option.some.injEq, Prod.mk.injEq] at hr; exact hr.1.symm
 
-/-- **refused_unchanged** — "Otherwise it is refused and nothing changes". When `Chain.CheckBlock` refuses a block
+/-- **refused_unchanged** — "Otherwise it is refused and nothing changes" (TRUE BY CONSTRUCTION of the model:
+    `checkBlockM` hands back the very `cs` it received on every path — the theorem states the model's effect
+    structure; that the Go code writes nothing is what the harness's before/after snapshot of the real chain object
+    tests). When `Chain.CheckBlock` refuses a block
     (any result other than `ok`), the chain state — block tree, `BlockIndex`, tip, unspent set — is returned
     unchanged, and the block object differs from the one handed in at most in the four fields the function
     assigns on its way (`Height`, `MedianPastTime`, `Txs`, `VerifyFlags`): everything derived from `Raw`, the hash
@@ -483,30 +581,35 @@ theorem refused_unchanged {U : Type} (p : Params) (c : Consensus) (h : Bytes →
         obtain ⟨_, rfl, _⟩ := hr
         simp [afterPost, afterPre]
 
-/-- non-vacuity of `refused_unchanged`: a block whose parent is unknown is refused (`bad-prevblk`, maybelater) on
-    a one-node chain. -/
+/-- non-vacuity of `refused_unchanged`: a block whose previous-block field shares only the 8-byte index key
+    (`bidx`) with the one known block is refused (`bad-prevblk`, maybelater) on a one-node chain — the look-up made by
+    the model itself finds the entry, the whole-hash comparison discards it. -/
 example : (checkBlockM (U := Unit)
     { maxPowBits := 0x207fffff, maxPowValue := setCompact 0x207fffff, testnet := false, testnet4 := false }
     { bip34Height := 1, bip65Height := 1, bip66Height := 1, enforceCSV := 0, enforceSegwit := 0, enforceTaproot := 0 }
     (fun x => x) 5000
-    { nodes := #[({ height := 0, ts := 900, bits := 0x207fffff }, -1)], index := [(7, 0)], last := 0, unspent := () }
-    { rawLen := 285, ver := 4, hash := 12345, hashKey := 9, parentKey := 8, bits := 0x207fffff, time := 1000, merkleRoot := [],
+    { nodes := #[({ height := 0, ts := 900, bits := 0x207fffff }, -1)], hashes := #[2^64 * 77 + 7], index := [(7, 0)], last := 0, unspent := () }
+    { rawLen := 285, ver := 4, hash := 12345, parentHash := 2^64 * 78 + 7, bits := 0x207fffff, time := 1000, merkleRoot := [],
       trusted := false, build := some [], buildOk := true, height := 0, mtp := 0, txs := none, verifyFlags := 0 }).map (·.2.2)
       = some { dos := false, maybelater := true, code := "bad-prevblk" } := by
   decide +kernel
 
-/-- **Accepted ⇒ both halves passed, on inputs read from the chain state.** If `Chain.CheckBlock` answers `ok`,
-    then PreCheckBlock passed on the inputs it looked up itself in the chain state (`preInOf`: known hash, parent
-    and ancestors, tip) and PostCheckBlock passed on the block as PreCheckBlock left it — so `precheck_sound` and
-    `postcheck_sound` apply to exactly these inputs — the result carries neither `dos` nor `maybelater`, and the
-    block object holds height = parent height + 1, the parent's median-time-past and the flags of GetBlockFlags. -/
+/-- **Accepted ⇒ both halves passed, on inputs read from the chain state, under the parent the header names.** If
+    `Chain.CheckBlock` answers `ok`, then PreCheckBlock passed on the inputs it looked up itself in the chain state
+    (`preInOf`: known hash, parent and ancestors, tip) and PostCheckBlock passed on the block as PreCheckBlock left it
+    — so `precheck_sound` and `postcheck_sound` apply to exactly these inputs — the result carries neither `dos` nor
+    `maybelater`, the block object holds height = parent height + 1, the parent's median-time-past and the flags of
+    GetBlockFlags; `BlockIndex` has no entry under the block's own 8-byte key, and the entry `n` under the 8-byte key of
+    the header's previous-block field is a node whose WHOLE hash equals that field. -/
 theorem checkBlock_accept {U : Type} (p : Params) (c : Consensus) (h : Bytes → Bytes) (now : Int)
     (cs cs' : ChainSt U) (bl bl' : BlockObj) (r : CheckRes)
     (hr : checkBlockM p c h now cs bl = some (cs', bl', r)) (hok : r.code = "ok") :
     ∃ o f, preCheckBlock p c (preInOf cs bl now) = some o ∧ o.err = .ok ∧
       postCheckBlock h c (postInOf (afterPre bl o)) = some (.ok, f) ∧
       r.dos = false ∧ r.maybelater = false ∧
-      bl'.height = o.height ∧ bl'.mtp = o.mtp ∧ bl'.verifyFlags = f := by
+      bl'.height = o.height ∧ bl'.mtp = o.mtp ∧ bl'.verifyFlags = f ∧
+      lookupKey cs.index (bidx bl.hash) = none ∧
+      ∃ n, lookupKey cs.index (bidx bl.parentHash) = some n ∧ cs.hashOf n = bl.parentHash := by
   unfold checkBlockM at hr
   split at hr
   · simp at hr
@@ -527,11 +630,35 @@ theorem checkBlock_accept {U : Type} (p : Params) (c : Consensus) (h : Bytes →
         have he : e = .ok := Proofs.C05.postErr_code_ok hok
         subst he
         have hs := precheck_sound p c _ o ho hoe
-        obtain ⟨_, _, _, _, _, _, _, _, _, _, _, _, _, _, _, _, _, hml⟩ := hs
-        refine ⟨o, f, ho, hoe, hpost, by simp, hml, ?_, ?_, ?_⟩
+        obtain ⟨_, _, _, _, hkn, prev, anc, _, hpar, _, _, _, _, _, _, _, _, hml⟩ := hs
+        refine ⟨o, f, ho, hoe, hpost, by simp, hml, ?_, ?_, ?_, ?_, ?_⟩
         · simp [afterPost, afterPre, hoe, PreErr.setsHeight]
         · simp [afterPost, afterPre, hoe, PreErr.setsMtp]
         · simp [afterPost, PostErr.setsFlags]
+        · simpa [preInOf] using hkn
+        · simp only [preInOf] at hpar
+          cases hl : lookupKey cs.index (bidx bl.parentHash) with
+          | none => simp [hl] at hpar
+          | some n =>
+            simp only [hl, Option.map_some, Option.some.injEq, Prod.mk.injEq] at hpar
+            exact ⟨n, rfl, hpar.1⟩
+
+/-- non-vacuity of `checkBlock_accept`: a one-transaction block (a coinbase whose script starts with the push of
+    height 1, Merkle root = its txid under the toy hash `take 1`, no segwit) on a one-node chain, whose previous-block
+    field is the WHOLE hash of that node, is accepted by the model; height 1, MTP 900 and the flags of
+    GetBlockFlags are left in the block object. -/
+example : (checkBlockM (U := Unit)
+    { maxPowBits := 0x207fffff, maxPowValue := setCompact 0x207fffff, testnet := false, testnet4 := false }
+    { bip34Height := 1, bip65Height := 1, bip66Height := 1, enforceCSV := 0, enforceSegwit := 0, enforceTaproot := 0 }
+    (fun x => x.take 1) 5000
+    { nodes := #[({ height := 0, ts := 900, bits := 0x207fffff }, -1)], hashes := #[2^64 * 77 + 7], index := [(7, 0)], last := 0, unspent := () }
+    { rawLen := 285, ver := 4, hash := 12345, parentHash := 2^64 * 77 + 7, bits := 0x207fffff, time := 1000, merkleRoot := [9],
+      trusted := false,
+      build := some [{ ins := [{ null := true, seq := 0xffffffff, scriptLen := 3 }], in0Script := [0x51, 1, 2], outs := [[0x51]],
+                       outValues := [5000000000], segwit := none, txid := [9], wtxid := [9], lockTime := 0, noWitSize := 100, size := 100 }],
+      buildOk := true, height := 0, mtp := 0, txs := none, verifyFlags := 0 }).map (fun x => (x.2.2, x.2.1.height, x.2.1.mtp))
+      = some ({ dos := false, maybelater := false, code := "ok" }, 1, 900) := by
+  decide +kernel
 
 /-- **Version gating, pointwise, on the three networks** (activation heights regenerated from NewChainExt, minimum
     versions from PreCheckBlock): a header version — read as a SIGNED 32-bit number — is permitted at a height iff
